@@ -439,7 +439,39 @@ def rule_strread(run):
     else: run.ok(key, norm(body), where='fixed_format_file.py')
 
 
+def rule_fitparse(run):
+    run.rule('FITPARSE', 'what fit_value_string() returns is the output of a % conversion of the value, untouched: the default readers parse a '
+             'field with float() / int(), which accept exactly that (a string edited afterwards - exponent letter removed, characters '
+             'cut - is read back as no value by every reader but the Fortran ones)', floor=1)
+    fi = run.prog.func('fixed_format_file.fit_value_string')
+    rets = [r for r in walk_no_nested(fi.node) if isinstance(r, ast.Return) and r.value is not None]
+    if not rets: raise AnalysisError('fit_value_string returns nothing')
+    def origin(e, depth=0):
+        """'fmt' if the expression is a % conversion (or a local bound only to such), else the offending node"""
+        if isinstance(e, ast.BinOp) and isinstance(e.op, ast.Mod): return 'fmt'
+        if isinstance(e, ast.Call) and isinstance(e.func, ast.Name) and e.func.id in ('str', 'repr') and len(e.args) == 1 and norm(e.args[0]) == fi.params[0]: return 'fmt'
+        if isinstance(e, ast.Call) and isinstance(e.func, ast.Attribute) and e.func.attr == 'format' and isinstance(e.func.value, ast.Constant): return 'fmt'
+        if isinstance(e, ast.Name) and depth < 3:
+            vals = [v for nm, v, st in roles.assignments(fi.node) if nm == e.id]
+            if not vals: return e
+            for v in vals:
+                o = origin(v, depth + 1)
+                if o != 'fmt': return o
+            return 'fmt'
+        return e
+    for r in rets:
+        key = 'fixed_format_file.fit_value_string :: return %s' % norm(r.value)[:50]
+        o = origin(r.value)
+        if o == 'fmt': run.ok(key, where=fi.where(r))
+        elif any(isinstance(c, ast.Call) and isinstance(c.func, ast.Attribute) and c.func.attr in ('replace', 'translate') for c in ast.walk(o)) or \
+                any(isinstance(c, ast.Subscript) for c in ast.walk(o)):
+            run.violated(key, 'the fitted string is edited after the conversion (`%s`): the result is no longer what float() accepts, so a field '
+                         'written this way is read back as no value by the default (non-Fortran) readers' % norm(o)[:80], where=fi.where(r))
+        else: run.unknown(key, 'origin `%s` of the returned string not recognised' % norm(o)[:80], where=fi.where(r))
+
+
 def check(run):
+    run.guarded('FITPARSE', rule_fitparse)
     run.guarded('STRREAD', rule_strread)
     run.guarded('MEMO', rule_memo)
     run.guarded('SHARED', rule_shared)
